@@ -210,7 +210,7 @@ def run(ctx, chk):
                     if s_[0] == "assign" and not s_[1]["p"] and s_[2][0] == "ref" and s_[2][1]["l"] in undef_refs and not [e for e in s_[2][1]["p"] if e != "deref"]:
                         undef_refs.add(s_[1]["l"])
         from symterm import SymFlow, subterms, strip
-        from driver_rules import local_closure
+        from driver_rules import local_closure, looks_up_start
         flow = SymFlow(drv)
         flow_entry, _, _ = flow.run(0, stop=set(targets))
         start_helpers = []
@@ -221,6 +221,12 @@ def run(ctx, chk):
             elif any(a[0] in ("copy", "move") and a[1]["l"] in undef_refs for a in t[2]) and not any(g == "undefined-labels" for g, _ in gates):
                 # first use of the preprocessor's undefined_labels set (however it is iterated)
                 gates.append(("undefined-labels", bi))
+            elif bi in flow_entry and t[1].get("local") and ctx.program.fns.get(t[1].get("id")) is not None \
+                    and ctx.program.fns[t[1]["id"]]["name"].startswith("driver::") and looks_up_start(ctx.program, ctx.program.fns[t[1]["id"]]) \
+                    and not any(g_ == "start-lookup" for g_, _ in gates):
+                # a local helper that contains the lookup of "start" itself
+                gates.append(("start-lookup", bi))
+                start_helpers.append((bi, ctx.program.fns[t[1]["id"]]))
             elif bi in flow_entry and any(strip(a) == ("str", '"start"') for a in flow.call_args(flow_entry[bi], bi)):
                 # the lookup of "start": the constant "start" is an argument of a map lookup, or of a local helper that
                 # performs the lookup (directly or through its closures)
